@@ -69,8 +69,17 @@ func (vfs *MemFS) searchNode(path string, slMode slMode) (
 		name := pi.Part()
 
 		parent.mu.RLock()
+		// The search permission of the other directories is checked when they are entered.
+		ok := parent != volNode || parent.checkPermission(avfs.OpenLookup, vfs.User())
 		child = parent.children[name]
 		parent.mu.RUnlock()
+
+		if !ok {
+			child = nil
+			err = vfs.err.PermDenied
+
+			return
+		}
 
 		if child == nil {
 			err = vfs.err.NoSuchDir
